@@ -99,6 +99,13 @@ def json_index(sx, jv, key, st, node):
     outs = []
     k = j["kind"](jv.term)
     key = sx.lift(key) if isinstance(key, Conc) else key
+    if sx.spec_mode:
+        # contract expressions: total selector functions, no exceptional edges
+        if isinstance(key.ty, V._Int):
+            n = j["len"](jv.term)
+            return [R(st, Val(V.Json, j["item"](jv.term, z3.If(key.term >= 0, key.term, n + key.term))))]
+        if isinstance(key.ty, V._Str):
+            return [R(st, Val(V.Json, j["get"](jv.term, key.term)))]
     if isinstance(key.ty, V._Int):
         # list index (or str index): succeed iff list/str with len > idx
         idx = key.term
@@ -236,8 +243,6 @@ def contains(sx, container, item, st, node):
                 item = sx.coerce(item, t.elem, st)
             except Unsupported:
                 return [(st, z3.BoolVal(False), None)]
-        if not isinstance(t.elem, V._Bool):
-            st.assume(z3.Implies(z3.Select(container.term, item.term), sx.set_ne_fun(t)(container.term)))
         return [(st, z3.Select(container.term, item.term), None)]
     if isinstance(t, V.Dict):
         if item.ty != t.k:
@@ -388,10 +393,13 @@ def binop(sx, op, a, b, st, node):
             return [R(st, Val(ta, r))]
     if isinstance(op, ast.BitAnd) and isinstance(ta, V.Set) and ta == tb:
         x = z3.Const(fresh_name("sa"), ta.elem.sort())
-        return [R(st, Val(ta, z3.Lambda([x], z3.And(z3.Select(a.term, x), z3.Select(b.term, x)))))]
+        newt = z3.Lambda([x], z3.And(z3.Select(a.term, x), z3.Select(b.term, x)))
+        # bool(A & B)  <=>  some element lies in both
+        return [R(st, Val(ta, newt, {"ne": z3.Exists([x], z3.And(z3.Select(a.term, x), z3.Select(b.term, x)))}))]
     if isinstance(op, ast.BitOr) and isinstance(ta, V.Set) and ta == tb:
         x = z3.Const(fresh_name("so"), ta.elem.sort())
-        return [R(st, Val(ta, z3.Lambda([x], z3.Or(z3.Select(a.term, x), z3.Select(b.term, x)))))]
+        return [R(st, Val(ta, z3.Lambda([x], z3.Or(z3.Select(a.term, x), z3.Select(b.term, x))),
+                      {"ne": z3.Or(sx.set_nonempty(a, st), sx.set_nonempty(b, st))}))]
     m = sx.reg.binop(sx, op, a, b, st, node)
     if m is not None:
         return m
